@@ -188,26 +188,26 @@ NextCode(f, l) == IF \E k \in DOMAIN Skel(f) : k > l /\ HasCode(f, k)
 (* the step "baseline" before anything is judged).  style = TRUE: only      *)
 (* reported with --enable=style.                                            *)
 (***************************************************************************)
-Fd(sn, f, id, col, syms, macros, style) ==
-  [snip |-> sn, file |-> f, line |-> LineOfSnip(f, sn), col |-> col, id |-> id, syms |-> syms, macros |-> macros, style |-> style]
+Fd(k, sn, f, id, col, syms, macros, style) ==
+  [k |-> k, snip |-> sn, file |-> f, line |-> LineOfSnip(f, sn), col |-> col, id |-> id, syms |-> syms, macros |-> macros, style |-> style]
 
-Palette ==
-  { Fd("zd",  "f0.c", "zerodiv", 27, {}, {}, FALSE),
-    Fd("np",  "f0.c", "nullPointer", 50, {"p"}, {}, FALSE),
-    Fd("np",  "f0.c", "nullPointer", 55, {"q"}, {}, FALSE),
-    Fd("np",  "f0.c", "constVariablePointer", 22, {"p"}, {}, TRUE),
-    Fd("np",  "f0.c", "constVariablePointer", 34, {"q"}, {}, TRUE),
-    Fd("uv",  "f0.c", "uninitvar", 31, {"u"}, {}, FALSE),
-    Fd("uv",  "f0.c", "unassignedVariable", 21, {"u"}, {}, TRUE),
-    Fd("ai",  "f0.c", "arrayIndexOutOfBounds", 28, {}, {}, FALSE),
-    Fd("ur",  "f0.c", "unreadVariable", 27, {"v"}, {}, TRUE),
-    Fd("zm",  "f0.c", "zerodiv", 24, {}, {"DIV"}, FALSE),
-    Fd("zb",  "f0.c", "zerodiv", 12, {}, {}, FALSE),
-    Fd("zd2", "f1.c", "zerodiv", 27, {}, {}, FALSE),
-    Fd("np2", "f1.c", "nullPointer", 37, {"r"}, {}, FALSE),
-    Fd("np2", "f1.c", "constVariablePointer", 22, {"r"}, {}, TRUE),
-    Fd("hai", "inc/h.h", "arrayIndexOutOfBounds", 35, {}, {}, FALSE),
-    Fd("hzd", "inc/h.h", "zerodiv", 34, {}, {}, FALSE) }
+Palette == TLCEval(
+  { Fd(1, "zd",  "f0.c", "zerodiv", 27, {}, {}, FALSE),
+    Fd(2, "np",  "f0.c", "nullPointer", 49, {"p"}, {}, FALSE),
+    Fd(3, "np",  "f0.c", "nullPointer", 54, {"q"}, {}, FALSE),
+    Fd(4, "np",  "f0.c", "constVariablePointer", 22, {"p"}, {}, TRUE),
+    Fd(5, "np",  "f0.c", "constVariablePointer", 34, {"q"}, {}, TRUE),
+    Fd(6, "uv",  "f0.c", "uninitvar", 31, {"u"}, {}, FALSE),
+    Fd(7, "uv",  "f0.c", "unassignedVariable", 21, {"u"}, {}, TRUE),
+    Fd(8, "ai",  "f0.c", "arrayIndexOutOfBounds", 28, {}, {}, FALSE),
+    Fd(9, "ur",  "f0.c", "unreadVariable", 27, {"v"}, {}, TRUE),
+    Fd(10, "zm",  "f0.c", "zerodiv", 24, {}, {"DIV"}, FALSE),
+    Fd(11, "zb",  "f0.c", "zerodiv", 12, {}, {}, FALSE),
+    Fd(12, "zd2", "f1.c", "zerodiv", 27, {}, {}, FALSE),
+    Fd(13, "np2", "f1.c", "nullPointer", 37, {"r"}, {}, FALSE),
+    Fd(14, "np2", "f1.c", "constVariablePointer", 22, {"r"}, {}, TRUE),
+    Fd(15, "hai", "inc/h.h", "arrayIndexOutOfBounds", 35, {}, {}, FALSE),
+    Fd(16, "hzd", "inc/h.h", "zerodiv", 34, {}, {}, FALSE) } )
 
 Findings(present, style) == {f \in Palette : f.snip \in present /\ (style \/ ~f.style)}
 Key(f) == <<f.file, f.line, f.col, f.id>>
@@ -340,7 +340,8 @@ Forms ==
     Two("t-np", "nullPointer") }
 
 FormNames == {s.n : s \in Forms}
-FormOf(n) == CHOOSE s \in Forms : s.n = n
+FormTab == TLCEval([n \in FormNames |-> CHOOSE s \in Forms : s.n = n])
+FormOf(n) == FormTab[n]
 
 \* what the user means, without the place of the inline comment
 Meaning(s) == [k |-> s.k, id |-> s.id, file |-> s.file, line |-> s.line, sym |-> s.sym, b |-> s.b, e |-> s.e]
@@ -381,10 +382,10 @@ Unbal(S) == {s.file : s \in {x \in S : x.k \in {"beg", "end"}}}
 \* the table form x palette finding, computed once
 \* (every zero-arity definition is evaluated when TLC starts: the heavy ones are guarded by the step that needs them)
 MatchTab == IF Mode \in {"judge", "laws"}
-            THEN TLCEval([n \in FormNames |-> [f \in Palette |-> [u \in BOOLEAN |->
-                            Match3(FormOf(n), f, IF u THEN {FormOf(n).file} ELSE {})]]])
+            THEN TLCEval([n \in FormNames |-> [k \in 1..Cardinality(Palette) |-> [u \in BOOLEAN |->
+                            Match3(FormOf(n), CHOOSE f \in Palette : f.k = k, IF u THEN {FormOf(n).file} ELSE {})]]])
             ELSE <<>>
-M3(n, f, S) == MatchTab[n][f][FormOf(n).file \in Unbal(S)]
+M3(n, f, S) == MatchTab[n][f.k][FormOf(n).file \in Unbal(S)]
 
 MustHide(F, S)   == {f \in F : \E s \in S : M3(s.n, f, S) = "yes"}
 MustReport(F, S) == {f \in F : \A s \in S : M3(s.n, f, S) = "no"}
@@ -421,8 +422,10 @@ Places(s) ==
 \* one file must be nested or apart and must not share a begin or an end line: otherwise the comments would not say
 \* which end belongs to which begin.  (Blocks of DIFFERENT ids may overlap in any way.)
 Crossing(s, t) == (s.b < t.b /\ t.b < s.e /\ s.e < t.e) \/ (t.b < s.b /\ s.b < t.e /\ t.e < s.e)
+\* (cppcheck refuses a suppression given twice; the manual does not speak about it: not part of the case space)
+CanonMeaning(s) == [Meaning(s) EXCEPT !.file = Str(StripDotSlash(Chars(s.file)))]
 Compat2(s, t) ==
-  /\ Meaning(s) # Meaning(t)
+  /\ CanonMeaning(s) # CanonMeaning(t)
   /\ \A x \in Places(s), y \in Places(t) : x[1] = y[1] => x[2] = y[2]
   /\ (s.k = "blk" /\ t.k = "blk" /\ s.file = t.file /\ s.id = t.id /\ s.sym = t.sym)
         => (s.b # t.b /\ s.e # t.e /\ ~Crossing(s, t))
@@ -430,7 +433,8 @@ Compatible(S) == \A s, t \in S : s # t => Compat2(s, t)
 
 (***************************************************************************)
 (* Rendering.  pick = [forms: sequence of form names, present, style,       *)
-(* fill (what the unused slot lines hold), var (syntax variant), nofail]    *)
+(* fill (what the unused slot lines hold), var (syntax variant), nofail,    *)
+(* modes (the preferred surfaces to run)]                                   *)
 (***************************************************************************)
 TextOf(s) == s.id \o (IF s.file = "" THEN "" ELSE ":" \o s.file \o (IF s.line = 0 THEN "" ELSE ":" \o ToString(s.line)))
 
@@ -484,12 +488,11 @@ Run(ss, d, v) ==
       slots |-> SlotsOf(inl, v),
       inline |-> inl # <<>>]
 
-\* the distinct runs of a pick, each with the preferred surfaces that lead to it
-Runs(ss, v) ==
-  LET rs == {Run(ss, Modes[i], v) : i \in 1..Len(Modes)}
-  IN [i \in 1..Cardinality(rs) |->
-        LET r == SetToSeq(rs)[i]
-        IN [modes |-> SelectSeq(Modes, LAMBDA d : Run(ss, d, v) = r), run |-> r]]
+\* the distinct runs of a pick for the preferred surfaces ms, each with the preferred surfaces that lead to it
+Runs(ss, v, ms) ==
+  LET all == [i \in 1..Len(ms) |-> Run(ss, ms[i], v)]
+      rs  == SetToSeq({all[i] : i \in 1..Len(ms)})
+  IN [k \in 1..Len(rs) |-> [modes |-> SelectSeq(ms, LAMBDA d : all[CHOOSE i \in 1..Len(ms) : ms[i] = d] = rs[k]), run |-> rs[k]]]
 
 NoFailSets == { <<>>, <<"zerodiv">>, <<"*">>, <<"nullPointer:f0.c", "zerodiv:f0.c:5">> }
 Fills == {"blank", "comment", "mixed"}
@@ -503,6 +506,7 @@ PickOK(p) ==
   /\ ToSet(p.present) \subseteq Snips
   /\ p.style \in BOOLEAN /\ p.fill \in Fills /\ p.var \in 0..MaxVar
   /\ p.nofail \in NoFailSets
+  /\ Len(p.modes) >= 1 /\ \A i \in 1..Len(p.modes) : p.modes[i] \in ToSet(Modes) /\ \A j \in 1..Len(p.modes) : i # j => p.modes[i] # p.modes[j]
 
 FormSeq(p) == [i \in 1..Len(p.forms) |-> FormOf(p.forms[i])]
 
@@ -605,7 +609,7 @@ ASSUME Mode = "gen" =>
 (* Step "render".                                                           *)
 (***************************************************************************)
 Picks == IF Mode = "render" THEN ndJsonDeserialize(IOEnv.PICKS) ELSE <<>>
-Rendered == [i \in 1..Len(Picks) |-> [pick |-> Picks[i], runs |-> Runs(FormSeq(Picks[i]), Picks[i].var)]]
+Rendered == TLCEval([i \in 1..Len(Picks) |-> [pick |-> Picks[i], runs |-> Runs(FormSeq(Picks[i]), Picks[i].var, Picks[i].modes)]])
 
 \* every surface form of a case means the case (blocks of a file with an unbalanced begin / end are not compared:
 \* their comments do not say which begin an end belongs to)
@@ -644,16 +648,24 @@ Obs == IF Mode = "judge" THEN ndJsonDeserialize(IOEnv.OBS) ELSE <<>>
 ObsKeys(r) == {<<f.file, f.line, f.col, f.id>> : f \in ToSet(r.findings)}
 FormsOfPick(p) == {FormOf(p.forms[i]) : i \in 1..Len(p.forms)}
 
+\* per case: the keys of the findings that must be reported, must be hidden, and of all findings of the project
+CaseV == IF Mode # "judge" THEN <<>> ELSE
+  [i \in 1..Len(Obs) |-> TLCEval(
+     LET p == Obs[i].pick
+         S == FormsOfPick(p)
+         F == Findings(ToSet(p.present), p.style)
+     IN [rep |-> {Key(f) : f \in MustReport(F, S)}, hide |-> {Key(f) : f \in MustHide(F, S)}, all |-> {Key(f) : f \in F},
+         unbal |-> Unbal(S) # {}])]
+
 \* What is wrong with one run: findings that must be reported and are not, findings that must be hidden and are
 \* shown, findings that are not findings of the project at all.  A report about a malformed suppression comment is
 \* tolerated (not demanded) where the case contains an unbalanced begin / end.
-Wrong(p, r) ==
-  LET S == FormsOfPick(p)
-      F == Findings(ToSet(p.present), p.style)
+Wrong(i, r) ==
+  LET v == CaseV[i]
       o == ObsKeys(r)
-  IN [missing |-> {Key(f) : f \in MustReport(F, S)} \ o,
-      shown   |-> {Key(f) : f \in MustHide(F, S)} \cap o,
-      extra   |-> {k \in o \ {Key(f) : f \in F} : ~(k[4] = "invalidSuppression" /\ Unbal(S) # {})},
+  IN [missing |-> v.rep \ o,
+      shown   |-> v.hide \cap o,
+      extra   |-> {k \in o \ v.all : ~(k[4] = "invalidSuppression" /\ v.unbal)},
       refused |-> r.rc # 0]                \* cppcheck did not accept the command line / files (default exit code is 0)
 IsWrong(w) == w.missing # {} \/ w.shown # {} \/ w.extra # {} \/ w.refused
 
@@ -693,34 +705,47 @@ AltBlocks(S, file) ==
                            res \cup {[id |-> evs[i].x.id, sym |-> evs[i].x.sym, b |-> open[k].l, e |-> evs[i].x.l]})
   IN go(1, <<>>, {})
 
-AltHidden1(F, S) ==
-  {f \in F : \/ \E s \in {x \in S : x.k \notin {"blk", "beg", "end"}} : M3(s.n, f, {}) # "no"
-             \/ \E b \in AltBlocks(S, f.file) : Glob(b.id, f.id) /\ (b.sym = "" \/ \E y \in f.syms : Glob(b.sym, y)) /\ b.b <= f.line /\ f.line <= b.e}
+InAltBlock(S, f) ==
+  \E b \in AltBlocks(S, f.file) : Glob(b.id, f.id) /\ (b.sym = "" \/ \E y \in f.syms : Glob(b.sym, y)) /\ b.b <= f.line /\ f.line <= b.e
+NonBlock(S) == {x \in S : x.k \notin {"blk", "beg", "end"}}
+AltHide1(F, S)   == {f \in F : (\E s \in NonBlock(S) : M3(s.n, f, {}) = "yes") \/ InAltBlock(S, f)}
+AltReport1(F, S) == {f \in F : (\A s \in NonBlock(S) : M3(s.n, f, {}) = "no") /\ ~InAltBlock(S, f)}
 
-\* alternative 2: of two forms with the same id, file, line-of-the-comment and symbol only the one given first
-\* (command line, files, then inline comments) takes effect
-CommentLine(s) == IF s.k = "std" THEN (IF s.line = 0 /\ s.at # NoAt THEN 1 ELSE s.line) ELSE IF s.k = "blk" THEN s.b ELSE IF s.k = "two" THEN s.line ELSE -1
+\* alternative 2: of two suppressions with the same id, file, line and symbol - the line of a block being the line of
+\* its begin comment, the line of a file-level comment the line it stands on - only the one given first (command
+\* line and files come before inline comments) takes effect
+CommentLine(s) == IF s.k = "std" THEN (IF s.line = 0 /\ s.at # NoAt THEN 1 ELSE s.line) ELSE IF s.k = "blk" THEN s.b ELSE -1
 SameParams(s, t) == s.id = t.id /\ s.sym = t.sym /\ CommentLine(s) = CommentLine(t) /\ CommentLine(s) > 0
-                    /\ FileMatch3(s.file, t.file) = "yes" /\ s.file # "" /\ StripDotSlash(Chars(s.file)) = Chars(t.file)
-Dropped(S, r) == {t \in S : \E s \in S : s # t /\ SameParams(s, t) /\ s.k = "std" /\ t.k # "std"}
+                    /\ s.file # "" /\ StripDotSlash(Chars(s.file)) = Chars(t.file)
+Dropped(S) == {t \in S : t.k \in {"blk", "std"} /\ (t.k = "blk" \/ t.line = 0) /\ \E s \in S : s # t /\ s.k = "std" /\ s.line # 0 /\ SameParams(s, t)}
+
+\* alternative 3: an id pattern with `**` before further characters matches nothing
+StarStarInside(id) == \E i \in 1..(Len(id) - 2) : SubSeq(id, i, i + 1) = "**"
+HasQuestion(id) == \E i \in 1..Len(id) : SubSeq(id, i, i) = "?"
+
+Consistent(o, hide, report) == {Key(f) : f \in report} \subseteq o /\ {Key(f) : f \in hide} \cap o = {}
+
+RECURSIVE JoinNames(_)
+JoinNames(ns) == IF ns = <<>> THEN "" ELSE IF Len(ns) = 1 THEN ns[1] ELSE ns[1] \o "+" \o JoinNames(Tail(ns))
 
 Class(p, r, w) ==
-  LET S == FormsOfPick(p)
-      F == Findings(ToSet(p.present), p.style)
-      o == ObsKeys(r)
-      inF == {Key(f) : f \in F} \cap o
-      hid == {Key(f) : f \in F} \ o
-      S2 == S \ Dropped(S, r)
-  IN IF w.refused THEN "refused"
-     ELSE IF w.extra # {} THEN "extra-finding"
-     ELSE IF \E s \in S : s.k = "blk" /\ hid = {Key(f) : f \in AltHidden1(F, S)} /\ r.run.inline
+  LET S  == FormsOfPick(p)
+      F  == Findings(ToSet(p.present), p.style)
+      o  == ObsKeys(r)
+      onlyInvalid == \A k \in w.extra : k[4] = "invalidSuppression"
+      S2 == S \ Dropped(S)
+      S3 == {s \in S : ~StarStarInside(s.id)}
+  IN IF w.refused THEN (IF \E s \in S : HasQuestion(s.id) THEN "error-id-with-?-refused" ELSE "refused:" \o JoinNames(p.forms))
+     ELSE IF (\E s \in S : s.k = "blk") /\ r.run.inline /\ onlyInvalid /\ Consistent(o, AltHide1(F, S), AltReport1(F, S))
        THEN "end-closes-latest-begin"
-     ELSE IF S2 # S /\ r.run.inline /\ {Key(f) : f \in MustReport(F, S2)} \subseteq o /\ {Key(f) : f \in MustHide(F, S2)} \cap o = {}
+     ELSE IF S2 # S /\ r.run.inline /\ w.extra = {} /\ Consistent(o, MustHide(F, S2), MustReport(F, S2))
        THEN "same-id-file-line-dropped"
-     ELSE "other"
+     ELSE IF S3 # S /\ w.extra = {} /\ Consistent(o, MustHide(F, S3), MustReport(F, S3))
+       THEN "double-star-inside-id-matches-nothing"
+     ELSE "other:" \o JoinNames(p.forms)
 
 BadRuns ==
-  UNION {{[case |-> i, run |-> j] : j \in {j \in 1..Len(Obs[i].runs) : IsWrong(Wrong(Obs[i].pick, Obs[i].runs[j]))}} : i \in 1..Len(Obs)}
+  UNION {{[case |-> i, run |-> j] : j \in {j \in 1..Len(Obs[i].runs) : IsWrong(Wrong(i, Obs[i].runs[j]))}} : i \in 1..Len(Obs)}
 BadSurf == {i \in 1..Len(Obs) : ~SurfacesAgree(Obs[i])}
 
 BadOut ==
@@ -728,7 +753,7 @@ BadOut ==
      LET b == SetToSeq(BadRuns)[n]
          c == Obs[b.case]
          r == c.runs[b.run]
-         w == Wrong(c.pick, r)
+         w == Wrong(b.case, r)
      IN [kind |-> "run", case |-> b.case, run |-> b.run, pick |-> c.pick, modes |-> r.modes,
          missing |-> SetToSeq(w.missing), shown |-> SetToSeq(w.shown), extra |-> SetToSeq(w.extra),
          class |-> Class(c.pick, r, w)]]
@@ -737,18 +762,16 @@ BadOut ==
         IN [kind |-> "surface", case |-> i, run |-> 0, pick |-> Obs[i].pick,
             modes |-> [j \in 1..Len(Obs[i].runs) |-> Obs[i].runs[j].modes],
             missing |-> <<>>, shown |-> <<>>, extra |-> <<>>,
-            class |-> IF \E j \in 1..Len(Obs[i].runs) : IsWrong(Wrong(Obs[i].pick, Obs[i].runs[j])) THEN "follows-from-run" ELSE "surface-forms-disagree"]]
+            class |-> IF \E j \in 1..Len(Obs[i].runs) : IsWrong(Wrong(i, Obs[i].runs[j])) THEN "follows-from-run" ELSE "surface-forms-disagree"]]
 
 \* measured for the evidence: decided / open verdicts over all judged (run, finding) pairs
 Decided ==
-  LET per(i) == LET p == Obs[i].pick
-                    S == FormsOfPick(p)
-                    F == Findings(ToSet(p.present), p.style)
-                IN <<Cardinality(MustReport(F, S)), Cardinality(MustHide(F, S)), Cardinality(F)>>
-      RECURSIVE sum(_, _)
-      sum(i, acc) == IF i > Len(Obs) THEN acc
-                     ELSE LET x == per(i) IN sum(i + 1, <<acc[1] + x[1] * Len(Obs[i].runs), acc[2] + x[2] * Len(Obs[i].runs), acc[3] + x[3] * Len(Obs[i].runs)>>)
-  IN sum(1, <<0, 0, 0>>)
+  LET n(i) == Len(Obs[i].runs)
+      sum(f(_)) == FoldLeft(LAMBDA a, b : a + b, 0, [i \in 1..Len(Obs) |-> f(i)])
+      rep(i) == n(i) * Cardinality(CaseV[i].rep)
+      hid(i) == n(i) * Cardinality(CaseV[i].hide)
+      all(i) == n(i) * Cardinality(CaseV[i].all)
+  IN <<sum(rep), sum(hid), sum(all)>>
 
 ASSUME Mode = "judge" =>
          /\ PrintT(<<"JUDGED", Len(Obs), "BADRUNS", Cardinality(BadRuns), "BADSURF", Cardinality(BadSurf)>>)
@@ -765,7 +788,7 @@ ASSUME Mode = "judge" =>
 (* symbol names, names of the macros used on its line.                      *)
 (***************************************************************************)
 UIdPats   == {"zerodiv", "nullPointer", "uninitvar", "*", "zero*", "*div", "*Pointer", "null*", "z?rodiv", "zerodi", "zerodivx",
-              "?erodiv", "*o*", "**", "nullPointer*", "?", "zero**", "*z*d*", "zerodiv*", "??????v", "zero?*", "*?"}
+              "?erodiv", "*o*", "**", "nullPointer*", "?", "zero**", "*z*d*", "zerodiv*", "??????v", "zero?*", "n**r", "z**v", "**div", "**r"}
 UFIds     == {"zerodiv", "nullPointer", "nullPointerRedundantCheck", "uninitvar", "zerodivcond", "v"}
 UFilePats == {"", "f0.c", "f1.c", "inc/h.h", "h.h", "*.c", "*.h", "f?.c", "inc/*.h", "inc/*", "**.h", "**/h.h", "inc", "in",
               "./f0.c", "./inc/h.h", "*", "**", "i*/h.h", "inc/h.?", "inc/sub", "inc/**", "*/h.h", "f0.?", "f0.c*", "src/f0.c",
@@ -802,18 +825,26 @@ UStrata == IF Mode # "gen" THEN <<>> ELSE
                          \cup {ULine(i, "", 0, t) : i \in {"zerodiv", "null*"}, t \in {" // suppress all", " # 5"}}),
       finds |-> SetToSeq({UFind(i, f, l, <<>>, <<>>) : i \in {"zerodiv", "nullPointer", "memleak", "a"}, f \in {"f0.c", "f1.c", "inc/h.h", "b"}, l \in {5, 7}})] >>
 
-\* verdict of a unit pair, from the same definitions as above
-UVerdict(s, f) ==
-  LET t   == IF s.via = "line" THEN ParseText(s.text) ELSE [id |-> s.id, file |-> s.file, line |-> s.line]
-      idm == B3(Glob(t.id, f.id))
-      sym == B3(s.sym = "" \/ \E i \in 1..Len(f.syms) : Glob(s.sym, f.syms[i]))
-  IN CASE s.type = "unique" -> And3({idm, IF t.file = "" THEN "yes" ELSE FileMatch3(t.file, f.file), B3(t.line = 0 \/ t.line = f.line), sym})
-       [] s.type = "file"   -> And3({idm, FileMatch3(t.file, f.file), sym})          \* the line of the comment does not count
-       [] s.type = "block"  -> And3({idm, FileMatch3(t.file, f.file), sym,
-                                     IF s.lb < f.line /\ f.line < s.le THEN "yes"
-                                     ELSE IF f.line < s.lb \/ f.line > s.le THEN "no" ELSE "open"})   \* the comment lines themselves
-       [] s.type = "macro"  -> IF ~(Glob(t.id, f.id) /\ \E i \in 1..Len(f.macros) : f.macros[i] = s.macro) THEN "no"
-                               ELSE IF FileMatch3(t.file, f.file) = "yes" THEN sym ELSE "open"
+\* verdict of a unit pair, from the same definitions as above; t = the id / file / line the suppression states
+\* (a text line is read by ParseText), idv / filev / symv = the pattern verdicts per finding id / file / symbol list
+UVerdictT(s, t, f, idv, filev, symv) ==
+  CASE s.type = "unique" -> And3({B3(idv[f.id]), filev[f.file], B3(t.line = 0 \/ t.line = f.line), B3(symv[f.syms])})
+    [] s.type = "file"   -> And3({B3(idv[f.id]), filev[f.file], B3(symv[f.syms])})         \* the line of the comment does not count
+    [] s.type = "block"  -> And3({B3(idv[f.id]), filev[f.file], B3(symv[f.syms]),
+                                  IF s.lb < f.line /\ f.line < s.le THEN "yes"
+                                  ELSE IF f.line < s.lb \/ f.line > s.le THEN "no" ELSE "open"})   \* the comment lines themselves
+    [] s.type = "macro"  -> IF ~(idv[f.id] /\ \E i \in 1..Len(f.macros) : f.macros[i] = s.macro) THEN "no"
+                            ELSE IF filev[f.file] = "yes" THEN B3(symv[f.syms]) ELSE "open"
+
+\* the verdicts of one suppression against every finding of its stratum
+URowOf(st, s) ==
+  LET t     == IF s.via = "line" THEN ParseText(s.text) ELSE [id |-> s.id, file |-> s.file, line |-> s.line]
+      fs    == st.finds
+      idv   == TLCEval([x \in {fs[j].id : j \in 1..Len(fs)} |-> Glob(t.id, x)])
+      filev == TLCEval([y \in {fs[j].file : j \in 1..Len(fs)} |-> IF t.file = "" THEN "yes" ELSE FileMatch3(t.file, y)])
+      symv  == TLCEval([z \in {fs[j].syms : j \in 1..Len(fs)} |-> s.sym = "" \/ \E i \in 1..Len(z) : Glob(s.sym, z[i])])
+  IN [j \in 1..Len(fs) |-> UVerdictT(s, t, fs[j], idv, filev, symv)]
+UVerdict(s, f) == URowOf([finds |-> <<f>>], s)[1]
 
 ASSUME Mode = "gen" =>
          /\ PrintT(<<"UNIT", [i \in 1..Len(UStrata) |-> Len(UStrata[i].sups) * Len(UStrata[i].finds)]>>)
@@ -823,22 +854,23 @@ ASSUME Mode = "gen" =>
 UCases == IF Mode = "judge" THEN ndJsonDeserialize(IOEnv.UCASES) ELSE <<>>
 UObs   == IF Mode = "judge" THEN ndJsonDeserialize(IOEnv.UOBS) ELSE <<>>
 UStratum(name) == CHOOSE i \in 1..Len(UCases) : UCases[i].name = name
-UBadOf(o) ==
-  LET st  == UCases[UStratum(o.st)]
+URows == IF Mode = "judge" THEN [i \in 1..Len(UObs) |-> TLCEval(URowOf(UCases[UStratum(UObs[i].st)], UCases[UStratum(UObs[i].st)].sups[UObs[i].s]))] ELSE <<>>
+UBadOf(i) ==
+  LET o   == UObs[i]
+      st  == UCases[UStratum(o.st)]
       s   == st.sups[o.s]
       hit == ToSet(o.hit)
-  IN IF o.err # "" THEN {[st |-> o.st, s |-> o.s, f |-> 0, sup |-> s, find |-> <<>>, expected |-> "accepted", got |-> o.err]}
-     ELSE {[st |-> o.st, s |-> o.s, f |-> j, sup |-> s, find |-> st.finds[j], expected |-> UVerdict(s, st.finds[j]), got |-> IF j \in hit THEN "yes" ELSE "no"]
-             : j \in {j \in 1..Len(st.finds) : LET v == UVerdict(s, st.finds[j]) IN (v = "yes" /\ j \notin hit) \/ (v = "no" /\ j \in hit)}}
-UBad == UNION {UBadOf(UObs[i]) : i \in 1..Len(UObs)}
-UCount(v) ==
-  LET RECURSIVE sum(_, _)
-      sum(i, acc) == IF i > Len(UObs) THEN acc
-                     ELSE LET st == UCases[UStratum(UObs[i].st)]
-                          IN sum(i + 1, acc + Cardinality({j \in 1..Len(st.finds) : UVerdict(st.sups[UObs[i].s], st.finds[j]) = v}))
-  IN sum(1, 0)
+      row == URows[i]
+  IN IF o.err # "" THEN {[st |-> o.st, s |-> o.s, f |-> 0, sup |-> s, find |-> <<>>, expected |-> "accepted", got |-> o.err,
+                          class |-> IF HasQuestion(s.id) THEN "unit:error-id-with-?-refused" ELSE "unit:refused:" \o s.text \o s.id]}
+     ELSE {[st |-> o.st, s |-> o.s, f |-> j, sup |-> s, find |-> st.finds[j], expected |-> row[j], got |-> IF j \in hit THEN "yes" ELSE "no",
+            class |-> IF StarStarInside(s.id) /\ row[j] = "yes" THEN "unit:double-star-inside-id-matches-nothing"
+                      ELSE "unit:" \o s.type \o ":expected-" \o row[j] \o ":" \o (IF s.via = "line" THEN s.text ELSE s.id \o ":" \o s.file \o ":" \o s.sym)]
+             : j \in {j \in 1..Len(st.finds) : (row[j] = "yes" /\ j \notin hit) \/ (row[j] = "no" /\ j \in hit)}}
+UBad == UNION {UBadOf(i) : i \in 1..Len(UObs)}
+UCount(v) == FoldLeft(LAMBDA a, b : a + b, 0, [i \in 1..Len(UObs) |-> Cardinality({j \in 1..Len(URows[i]) : URows[i][j] = v})])
 ASSUME Mode = "judge" =>
-         /\ PrintT(<<"UNITJUDGED", Len(UObs), "BAD", Cardinality(UBad), "OPEN", UCount("open")>>)
+         /\ PrintT(<<"UNITJUDGED", Len(UObs), "BAD", Cardinality(UBad), "YES", UCount("yes"), "NO", UCount("no"), "OPEN", UCount("open")>>)
          /\ ndJsonSerialize(IOEnv.UBADOUT, SetToSeq(UBad))
 
 (***************************************************************************)
